@@ -310,6 +310,11 @@ pub fn gen_bound(rng: &mut Rng, kind: i32) -> Option<(f64, f64)> {
             _ => *rng.pick(&[Some((0.0, 0.0)), Some((1.0, 1.0)), Some((-1.0, 2.0)), Some((0.0, 1.0))]),
         };
     }
+    if rng.chance(1, 25) {
+        // large magnitudes: `bound + 1e-7` rounds back to the bound
+        let big = *rng.pick(&[4294967296.0, 1e10, 2147483648.0, 9007199254740992.0]);
+        return Some(*rng.pick(&[(-big, big), (0.0, big), (-big, 0.0), (big / 2.0, big), (-big, -big / 2.0)]));
+    }
     let a = rng.range(-16, 16) as f64 / 4.0;
     let w = rng.range(0, 24) as f64 / 4.0;
     match rng.below(8) {
@@ -340,6 +345,15 @@ pub fn effective_bound(v: &v1::DecisionVariable) -> (f64, f64) {
 /// an in-bound value for a variable, integral for binary / integer kinds when possible
 pub fn value_in_bound(rng: &mut Rng, v: &v1::DecisionVariable, regime: Regime) -> f64 {
     let (l, u) = effective_bound(v);
+    // exactly on a finite end of the bound (both regimes)
+    if rng.chance(1, 10) {
+        if l.is_finite() && (rng.bool() || !u.is_finite()) {
+            return l;
+        }
+        if u.is_finite() {
+            return u;
+        }
+    }
     let integral = v.kind == KIND_BINARY || v.kind == KIND_INTEGER || v.kind == KIND_SEMI_INTEGER;
     let lo = if l.is_finite() { l } else { (if u.is_finite() { u } else { 0.0 }) - 4.0 };
     let hi = if u.is_finite() { u } else { lo.max(if l.is_finite() { l } else { -4.0 }) + 8.0 };
@@ -549,4 +563,25 @@ pub fn gen_hints(rng: &mut Rng, inst: &v1::Instance) -> Option<v1::ConstraintHin
         h.sos1_constraints.push(s);
     }
     Some(h)
+}
+
+/// id pool for pure look-up properties (evaluate, partial_evaluate): like `id_pool`, and the extreme
+/// ids 0, u64::MAX-1, u64::MAX may occur
+pub fn id_pool_lookup(rng: &mut Rng, n: usize) -> Vec<u64> {
+    let mut v = id_pool(rng, n, true);
+    if rng.chance(1, 6) && !v.is_empty() {
+        let extremes = [u64::MAX, u64::MAX - 1, 0, u64::MAX / 2, (u64::MAX / 2) + 1];
+        let mut k = 0;
+        for slot in v.iter_mut() {
+            if rng.chance(1, 3) && k < extremes.len() {
+                let e = extremes[k];
+                k += 1;
+                *slot = e;
+            }
+        }
+        v.sort_unstable();
+        v.dedup();
+        rng.shuffle(&mut v);
+    }
+    v
 }
